@@ -37,6 +37,7 @@ func checkC05(r *core.Run) {
 	c05Wiring(r)
 	c05ErrorRegistry(r)
 	copyAddressedByFlag(r)
+	memberCountFollowsMembership(r)
 }
 
 const syncPut = "internal/dmap.(*DMap).syncPutOnCluster"
